@@ -165,6 +165,22 @@ def check(ctx, build=None):
             stats["skeletons_rejected"] += st.get("rejected", 0)
             if bad and not any(b["kind"] == "correspondence" for b in build.broken):
                 build.broken.append({"kind": "correspondence", "name": "tr: Model.Tr.trStmts vs what goose accepts and rejects", "detail": json.dumps(bad)[:2500]})
+        # ---- the model of multiple assignments against the real translator: goose accepts a statement exactly when Model.TupleAssign.guard
+        #      says so, and then the emitted code returns what Go returns (Props/C02Tuple.tuple_assign_faithful is about that guard)
+        import tuplecorr
+        for ts in range(ctx.seed * 10 + 300, ctx.seed * 10 + 300 + (1 if ctx.tier == "quick" else 12)):
+            st, bad = tuplecorr.run(ts, 70 if ctx.tier == "quick" else 160, scratch)
+            for k, v in st.items():
+                stats[k] += v
+            sem = [b for b in bad if b["kind"] == "semantics"]
+            wrongly_accepted = [b for b in bad if b["kind"] == "guard" and b["goose_accepts"]]
+            if sem:
+                b = sem[0]
+                viol("C02: goose accepts a multiple assignment and the emitted GooseLang does not behave like Go",
+                     {"proto": "c02-tuple", "targets": b["targets"], "go_source": b["go_source"], "emitted": b["emitted"]}, {"go": b["go"]}, {"gooselang": b["gooselang"]})
+            if bad and not any(x["name"].startswith("tuple:") for x in build.broken):
+                build.broken.append({"kind": "correspondence", "name": "tuple: Model.TupleAssign.guard vs the multiple assignments goose accepts",
+                                     "detail": json.dumps([{k: v for k, v in b.items() if k != "emitted"} for b in (wrongly_accepted or bad)[:2]])[:2500]})
         # ---- subset programs with one catalogue statement spliced in at a random position
         import c02splice
         for res in c02splice.run(ctx, scratch, known):
